@@ -94,6 +94,11 @@ impl TryFrom<&[u8]> for SecretKeyEnum {
     type Error = BlsError;
 
     fn try_from(value: &[u8]) -> Result<Self, Self::Error> {
+        if value.is_empty() {
+            return Err(BlsError::InvalidInputs(
+                "Invalid secret key bytes".to_string(),
+            ));
+        }
         let ee = Bls12381::try_from(value[0])?;
         match ee {
             Bls12381::G1 => {
@@ -157,6 +162,9 @@ impl SecretKeyEnum {
 
     /// Convert a big-endian representation of the secret key.
     pub fn from_be_bytes(bytes: &[u8]) -> CtOption<Self> {
+        if bytes.is_empty() {
+            return CtOption::new(Self::default(), Choice::from(0u8));
+        }
         let t = match Bls12381::try_from(bytes[0]) {
             Ok(t) => t,
             Err(_) => return CtOption::new(Self::default(), Choice::from(0u8)),
@@ -190,6 +198,9 @@ impl SecretKeyEnum {
 
     /// Convert a little-endian representation of the secret key.
     pub fn from_le_bytes(bytes: &[u8]) -> CtOption<Self> {
+        if bytes.is_empty() {
+            return CtOption::new(Self::default(), Choice::from(0u8));
+        }
         let t = match Bls12381::try_from(bytes[0]) {
             Ok(t) => t,
             Err(_) => return CtOption::new(Self::default(), Choice::from(0u8)),
